@@ -136,69 +136,8 @@ fn new_gate() -> usize {
 }
 
 // ---------------------------------------------------------------- eager address re-use (real ABA)
-// glibc does not hand a freed 32-byte-aligned chunk out again soon, so stale head words would never meet a
-// re-used block address in real runs. While a scenario of this family is being run, allocations with the
-// alignment of a queue block (32) are served LIFO from the blocks of the same size freed last; everything else
-// (and every other family) goes straight to the system allocator.
-pub struct Recycler;
-static RECYCLE_ON: std::sync::atomic::AtomicBool = std::sync::atomic::AtomicBool::new(false);
-static RLOCK: std::sync::atomic::AtomicBool = std::sync::atomic::AtomicBool::new(false);
-const RCAP: usize = 64;
-static RPTR: [AtomicUsize; RCAP] = [const { AtomicUsize::new(0) }; RCAP];
-static RSZ: [AtomicUsize; RCAP] = [const { AtomicUsize::new(0) }; RCAP];
-static RLEN: AtomicUsize = AtomicUsize::new(0);
-fn rlock() {
-    while RLOCK.compare_exchange(false, true, Ordering::Acquire, Ordering::Relaxed).is_err() {
-        std::hint::spin_loop();
-    }
-}
-unsafe impl std::alloc::GlobalAlloc for Recycler {
-    unsafe fn alloc(&self, l: std::alloc::Layout) -> *mut u8 {
-        if l.align() == 32 && RECYCLE_ON.load(Ordering::Relaxed) {
-            rlock();
-            let n = RLEN.load(Ordering::Relaxed);
-            let mut found = 0usize;
-            let mut i = n;
-            while i > 0 {
-                i -= 1;
-                if RSZ[i].load(Ordering::Relaxed) == l.size() {
-                    found = RPTR[i].load(Ordering::Relaxed);
-                    // remove entry i, keep the order of the others
-                    for j in i..n - 1 {
-                        RPTR[j].store(RPTR[j + 1].load(Ordering::Relaxed), Ordering::Relaxed);
-                        RSZ[j].store(RSZ[j + 1].load(Ordering::Relaxed), Ordering::Relaxed);
-                    }
-                    RLEN.store(n - 1, Ordering::Relaxed);
-                    break;
-                }
-            }
-            RLOCK.store(false, Ordering::Release);
-            if found != 0 {
-                return found as *mut u8;
-            }
-        }
-        std::alloc::System.alloc(l)
-    }
-    unsafe fn dealloc(&self, p: *mut u8, l: std::alloc::Layout) {
-        if l.align() == 32 && RECYCLE_ON.load(Ordering::Relaxed) {
-            rlock();
-            let n = RLEN.load(Ordering::Relaxed);
-            let room = n < RCAP;
-            if room {
-                RPTR[n].store(p as usize, Ordering::Relaxed);
-                RSZ[n].store(l.size(), Ordering::Relaxed);
-                RLEN.store(n + 1, Ordering::Relaxed);
-            }
-            RLOCK.store(false, Ordering::Release);
-            if room {
-                return;
-            }
-        }
-        std::alloc::System.dealloc(p, l)
-    }
-}
-#[global_allocator]
-static GLOBAL: Recycler = Recycler;
+// the recycling allocator lives in `crate::valloc` (the one global allocator of the harness); this family switches it on
+use crate::valloc::RECYCLE_ON;
 
 // ---------------------------------------------------------------- stall injection (kind = aba)
 // The installed hook table is wrapped: for the one thread that set `STALL_ME`, the first hooked compare-exchange
